@@ -27,6 +27,8 @@ type Obligation struct {
 	FuncKey  string
 	Mode     string
 	Props    []string
+	LightGoal  string
+	LightExtra []string
 	Results  []*SV  // result values at the return (post obligations)
 	St       *State // state at the obligation point
 }
@@ -75,6 +77,10 @@ type Gen struct {
 	loopHeadState map[*loopInfo]*State
 	nInstr, nHavoc int
 	retOrd map[*ssa.Return]int
+	droppable map[int]bool
+	hyps      []*hyp
+	seenIdx   []string
+	seenSet   map[string]bool
 	lockHook func(key string, common *ssa.CallCommon, args []*SV, st *State, reach string, pos token.Pos)
 }
 
@@ -137,8 +143,26 @@ func (g *Gen) addFact(f string) {
 	g.facts = append(g.facts, f)
 }
 
+// addAssume records an assumed invariant / callee postcondition. These are the facts a
+// lighter proof attempt may drop when they are quantified (dropping hypotheses is sound).
+func (g *Gen) addAssume(f string) {
+	if f == "" || f == "true" {
+		return
+	}
+	if g.droppable == nil {
+		g.droppable = map[int]bool{}
+	}
+	if strings.Contains(f, "(forall ") || strings.Contains(f, "(exists ") {
+		g.droppable[len(g.facts)] = true
+	}
+	g.facts = append(g.facts, f)
+}
+
 func (g *Gen) shortName() string {
 	k := g.key
+	if g.con != nil && g.con.Variant != "" {
+		k += "@" + g.con.Variant
+	}
 	if i := strings.LastIndex(k, "/"); i >= 0 {
 		k = k[i+1:]
 	}
@@ -437,6 +461,25 @@ func (g *Gen) run() {
 		s := g.mustEval(cl, env)
 		g.addFact(s)
 		pres = append(pres, s)
+		henv := *env
+		henv.st = st.clone()
+		g.registerHyps(cl.E, nil, &henv, "true")
+	}
+	for _, u := range g.con.Uses {
+		found := false
+		for _, lm := range g.cs.Lemmas {
+			if lm.Name == u {
+				found = true
+				s := g.mustEval(lm.Clause, env)
+				g.addFact(s)
+				henv := *env
+				henv.st = st.clone()
+				g.registerHyps(lm.Clause.E, nil, &henv, "true")
+			}
+		}
+		if !found {
+			panic(bindError{"unknown lemma " + u})
+		}
 	}
 	// vacuity guard: preconditions satisfiable
 	co := g.addObl("cover", "pre", "true", fn.Pos(), "preconditions are satisfiable", nil)
@@ -694,7 +737,8 @@ func (g *Gen) loopHead(li *loopInfo, st *State, reach string) *State {
 		if lab == "" {
 			lab = fmt.Sprintf("%d.%d", li.ord, i)
 		}
-		g.addObl("inv-init", lab, implies(reach, s), pos, "loop invariant holds on entry: "+cl.Src, cl)
+		io := g.addObl("inv-init", lab, implies(reach, s), pos, "loop invariant holds on entry: "+cl.Src, cl)
+		g.lightGoal(io, cl.E, env, reach)
 	}
 	// havoc
 	ns := st.clone()
@@ -736,7 +780,7 @@ func (g *Gen) loopHead(li *loopInfo, st *State, reach string) *State {
 		if !clauseActive(cl, g.fmode) {
 			continue
 		}
-		g.addFact(implies(reach, g.mustEval(cl, env2)))
+		g.assumeClause(cl, env2, reach)
 	}
 	if spec.Decreases != nil {
 		d := g.mustEval(spec.Decreases, env2)
@@ -770,7 +814,8 @@ func (g *Gen) backEdge(li *loopInfo, st *State, cond string, from *ssa.BasicBloc
 			lab = fmt.Sprintf("%s/%d", lab, n)
 		}
 		g.safeCtr["keep."+strings.Split(lab, "/")[0]]++
-		g.addObl("inv-keep", lab, implies(cond, s), pos, "loop invariant preserved: "+cl.Src, cl)
+		ko := g.addObl("inv-keep", lab, implies(cond, s), pos, "loop invariant preserved: "+cl.Src, cl)
+		g.lightGoal(ko, cl.E, env, cond)
 	}
 	if spec.Decreases != nil {
 		d := g.mustEval(spec.Decreases, env)
